@@ -152,11 +152,11 @@ def pure_world_globals():
     return {'T': T, 'P': P, 'R': R}
 
 
-def gen_pure(rnd, mutation=False):
+def gen_pure(rnd, mutation=False, global_=False):
     """side-effect-free (apart from writes to the argument objects m / o when mutation=True), definitely-assigned
     programs: conditions and trip counts are pure functions"""
     opts = progs.Opts(loop_else=False, reads='safe', try_=False, with_=False, raise_=False, max_stmts=12,
-                      fresh_for_targets=True, nested_def=False, mutation=mutation, append=False)
+                      fresh_for_targets=True, nested_def=False, mutation=mutation, append=False, global_=global_)
     src = progs.gen_function(rnd, opts)
     src = re.sub(r'\bD\(', 'P(', src)
     src = re.sub(r'\bL\((\d+)\)', r'R(\1)', src)
@@ -265,6 +265,15 @@ class _Obj(object):
 
 
 def run_pure(fn, mutation=False):
+    r = _run_pure(fn, mutation)
+    g = getattr(fn, '__globals__', None)
+    return r + (('G', g.get('G')),) if isinstance(g, dict) else r
+
+
+def _run_pure(fn, mutation=False):
+    g = getattr(fn, '__globals__', None)
+    if isinstance(g, dict):
+        g['G'] = 10                # the module global some programs declare and write
     if mutation:
         m, o = [5, 6], _Obj()
         holder = [o, m]            # the caller's alias: how the mutation is observed afterwards
@@ -324,7 +333,7 @@ def check(run):
     from malt.impl import api
     failures = []
     nprog = 150 if quick else 2000
-    srcs = closure_programs(rnd) + [gen_pure(rnd, mutation=(i % 3 == 0)) for i in range(nprog)]
+    srcs = closure_programs(rnd) + [gen_pure(rnd, mutation=(i % 3 == 0), global_=(i % 4 == 1)) for i in range(nprog)]
     cdir = os.path.join(vlib.ROOT, 'corpus', 'C02')
     csrcs = []
     if os.path.isdir(cdir):
